@@ -198,7 +198,13 @@ def sweep(name, cases, check, kind="bounded", bound="", describe=repr, function=
     t0 = time.time(); n = 0
     for c in cases:
         n += 1
-        bad = check(c)
+        try:
+            bad = check(c)
+        except Exception as e:
+            # the oracle's own calls into the real code ended in an exception it does not anticipate: on the unchanged tree this never happens
+            # (the sweep passes), so it is a change of behaviour of the code under test, reported with the case that shows it
+            import traceback as _tb
+            bad = {"expected": "the calls of the oracle complete (as they do on the unchanged tree)", "observed": "%s: %s  [%s]" % (type(e).__name__, str(e)[:200], " <- ".join(l.strip() for l in _tb.format_exc().strip().splitlines()[-4:-1])[:300])}
         if bad:
             rec = {"unit": unit, "obligation": name, "verdict": "confirmed", "input": describe(c), "expected": bad.get("expected"), "observed": bad.get("observed"), "model": None}
             return Result(name, kind, FAILED, "native", time.time() - t0, function, detail=("%s -> %s" % (describe(c), bad))[:800], replay=rec, props=props, bound=bound, cases=n,
